@@ -1374,6 +1374,13 @@ class Interp:
             return
         if not r.ok:
             # refused: nothing may change
+            plain = all(re.fullmatch(r"\\(Seen|Answered|Flagged|Deleted|Draft)|kw[0-9]|\$Forwarded|NonJunk", f, re.I) for f in flags)
+            if r.status == "NO" and plain and flags and not ms.readonly and uids and all(box.by_uid(u) is not None for u in uids if u is not None) \
+                    and not ms.maybe_pending and "pending" not in (r.text or "").lower() and self.view_synced(sess, box):
+                # C04: a STORE of system flags (in any case) and ordinary keywords on existing messages of a read-write
+                # session with nothing pending has no reason to be refused
+                self.C("c04_valid_store_accepted")
+                self.V("C04", "valid_store_refused", cmd=f"STORE {txt} {item} {' '.join(flags)}", reply=r.brief())
             await self.after_mutation([box], "store-refused")
             return
         self.ctx.nontrivial = True
@@ -1427,6 +1434,10 @@ class Interp:
                         self.ctx.probe("split_delivery_observed_midway")
                         m.amb = False
                         m.flags = hit[-1]
+                        for ms2 in self.model.sessions.values():
+                            k2 = ms2.know.get(m.uid)
+                            if k2 is not None and (k2 ^ m.flags) == {"\\seen"}:
+                                ms2.know[m.uid] = m.flags
                     elif hit[-1] != m.flags:
                         self.V("C04", "store_response_wrong", uid=m.uid, told=sorted(hit[-1]), model=sorted(m.flags), cmd=f"STORE {txt} {item}")
         self.others_changed(box, sess.sid)
